@@ -3,11 +3,11 @@ package main
 // Evaluation of contract expressions to symbolic values in a given state.
 
 import (
-	"os"
 	"fmt"
 	"go/constant"
 	"go/token"
 	"go/types"
+	"os"
 	"strconv"
 	"strings"
 
@@ -690,7 +690,23 @@ func (x *fnCtx) evalSpecCall(env *specEnv, e *SExpr) *Val {
 	case "payload":
 		return scalar(tInt, ev(0).IVal())
 	case "old":
-		return x.evalSpec(env.withHeap(env.old), args[0])
+		n := env.withHeap(env.old)
+		if env.pkg == "" && env.fr != nil && len(env.fr.params) == len(x.fn.Params) {
+			// the function's own parameters denote their entry values inside old()
+			names := map[string]nameBind{}
+			for k, v := range n.names {
+				names[k] = v
+			}
+			for i, p := range x.fn.Params {
+				if _, bound := names[p.Name()]; bound {
+					names[p.Name()] = nameBind{v: env.fr.params[i]}
+				}
+			}
+			n2 := *n
+			n2.names = names
+			n = &n2
+		}
+		return x.evalSpec(n, args[0])
 	case "prev":
 		if env.st.prevHeap == nil {
 			x.fail("spec: prev() outside a loop step clause")
